@@ -26,6 +26,11 @@ Inductive case :=
   (* a history through Sub(r, prefix) under a context carrying scope ctx: per operation
      the result the caller saw and the backend calls made during it *)
   | CHist (prefix : bytes) (ctx : scope) (hist : list op) (obs : list (result * list bcallr))
+  (* a history in which every call has its own context scope and is made on one of several
+     views that are alive together over the same backend: per operation the prefix of the
+     view it is made on (a view is one Sub value for the whole history), the scope in its
+     context, the operation; observed as for CHist *)
+  | CHistV (hist : list ((bytes * scope) * op)) (obs : list (result * list bcallr))
   (* Repositories yield by yield: the backend's raw yields, the index of the yield at which
      the consumer says stop; observed: the scope and start point the backend was called
      with, the yields the consumer received, the number of backend yields delivered *)
@@ -66,6 +71,14 @@ Definition obs_script (obs : list (result * list bcallr)) : script :=
 Definition obs_calls (calls : list bcallr) : list bcall :=
   map (fun c => proj (fst c, fst (snd c))) calls.
 
+(* the views keep nothing between calls: every call is a step of the view it is made on
+   under its own context, over the backend as the calls before left it *)
+Fixpoint vrun (sc : script) (h : list ((bytes * scope) * op)) : list (result * list bcall) :=
+  match h with
+  | [] => []
+  | ((p, c), o) :: h' => let '(s1, r, t) := model_step p c sc o in (r, t) :: vrun s1 h'
+  end.
+
 Definition null_backend : ctx_registry unit := fun _ st _ => (st, Ok RUnit).
 
 Definition model_agrees (c : case) : bool :=
@@ -74,6 +87,9 @@ Definition model_agrees (c : case) : bool :=
       list_eqb obs_eqb (map (fun x => (fst x, obs_calls (snd x))) obs)
                (map (fun x => (fst x, map proj (snd x)))
                     (snd (trun (model_step prefix ctx) (obs_script obs) hist)))
+  | CHistV hist obs =>
+      list_eqb obs_eqb (map (fun x => (fst x, obs_calls (snd x))) obs)
+               (map (fun x => (fst x, map proj (snd x))) (vrun (obs_script obs) hist))
   | CSeq prefix start ctx evs stop bctx bstart ys delivered =>
       negb (is_empty prefix) &&
       let '(ys', n) := repos_drive (cut_prefix (prefix ++ [slash])) (stop_fn stop) 0 evs in
@@ -196,6 +212,15 @@ Fixpoint spec_hist (prefix : bytes) (ctx : scope) (hist : list op) (obs : list (
   | _, _ => false
   end.
 
+(* every call is judged by the prefix of the view it was made on and by the scope of its
+   own context, whatever the calls before it carried *)
+Fixpoint spec_histv (hist : list ((bytes * scope) * op)) (obs : list (result * list bcallr)) : bool :=
+  match hist, obs with
+  | [], [] => true
+  | ((p, c), o) :: hist', (r, calls) :: obs' => spec_op p c o r calls && spec_histv hist' obs'
+  | _, _ => false
+  end.
+
 Fixpoint first_error (evs : list yld) : list yld :=
   match evs with
   | [] => []
@@ -217,6 +242,7 @@ Definition twin_expect (prefix : bytes) (o : op) (direct : result) : result :=
 Definition obs_ok (c : case) : bool :=
   match c with
   | CHist prefix ctx hist obs => spec_hist prefix ctx hist obs
+  | CHistV hist obs => spec_histv hist obs
   | CSeq prefix start ctx evs stop bctx bstart ys delivered =>
       list_eqb yld_eqb ys
         match stop with
@@ -254,6 +280,10 @@ Definition nontrivial (c : case) : bool :=
                          | Repositories _ => true
                          | _ => match op_repos o with [] => false | _ => true end
                          end) hist)
+  | CHistV hist obs =>
+      (* two or more calls, one of them through a prefix under a scope naming a repository *)
+      Nat.ltb 1 (length hist) &&
+      existsb (fun x => negb (is_empty (fst (fst x))) && has_repo_scope (snd (fst x))) hist
   | CSeq prefix start ctx evs stop bctx bstart ys delivered =>
       existsb (fun y => match snd y with
                         | None => negb (underb prefix (fst y))
@@ -421,6 +451,33 @@ Proof.
       * apply IH. rewrite Et. exact H2.
 Qed.
 
+Lemma spec_histv_sound hist : forall obs,
+  list_eqb obs_eqb (map (fun x => (fst x, obs_calls (snd x))) obs)
+           (map (fun x => (fst x, map proj (snd x))) (vrun (obs_script obs) hist)) = true ->
+  spec_histv hist obs = true.
+Proof.
+  induction hist as [|[[prefix ctx] o] hist IH]; intros obs H.
+  - destruct obs; [reflexivity | discriminate].
+  - destruct obs as [|[r calls] obs]; cbn [vrun] in H.
+    + destruct (model_step prefix ctx (obs_script []) o) as [[s1 r1] t1]. discriminate.
+    + unfold obs_script in H. cbn [map concat snd fst] in H. fold (obs_script obs) in H.
+      rewrite model_step_spec in H. cbn [spec_histv].
+      set (c := m_ctx prefix ctx o) in *. set (o' := m_op prefix o) in *.
+      cbn [snd map list_eqb fst] in H. apply andb_true_iff in H as [H1 H2].
+      apply (pair_eqb_eq _ _ result_eqb_eq (list_eqb_eq bcall_eqb bcall_eqb_eq)) in H1.
+      cbn [fst snd] in H1. injection H1 as Hr Hc.
+      destruct calls as [|[c1 [o1 br]] [|? ?]]; try discriminate.
+      cbn [obs_calls map fst snd] in Hc.
+      assert (Hp : proj (c1, o1) = proj (c, o')).
+      { change (hd (proj (c, o')) [proj (c1, o1)] = hd (proj (c, o')) [proj (c, o')]). now rewrite Hc. }
+      clear Hc. rename Hp into Hc.
+      assert (Ho : o1 = o') by (exact (f_equal snd Hc)).
+      subst o1. cbn [map snd app] in *. rewrite script_step_head in *. cbn [fst snd] in *.
+      subst r. apply andb_true_iff. split.
+      * apply spec_op_sound. exact Hc.
+      * apply IH. exact H2.
+Qed.
+
 (* --- listings yield by yield --- *)
 
 Fixpoint kept_yields (keep : bytes -> option bytes) (evs : list yld) : list yld :=
@@ -485,10 +542,11 @@ Proof. rewrite !forallb_forall. auto. Qed.
 
 Lemma corr_sound c : model_agrees c = true -> obs_ok c = true.
 Proof.
-  destruct c as [prefix ctx hist obs | prefix start ctx evs stop bctx bstart ys delivered
+  destruct c as [prefix ctx hist obs | hist obs | prefix start ctx evs stop bctx bstart ys delivered
                 | prefix names start r | prefix hist obs | m en r ncalls | prefix name joined];
     cbn [model_agrees obs_ok].
   - apply spec_hist_sound.
+  - apply spec_histv_sound.
   - destruct prefix as [|ch prefix]; [discriminate|]. cbn [is_empty negb andb].
     set (pf := ch :: prefix).
     destruct (repos_drive (cut_prefix (pf ++ [slash])) (stop_fn stop) 0 evs) as [ys' n] eqn:E.
